@@ -38,6 +38,7 @@ class Row:
         self.stored = 0
         self.slot = []            # values assigned to the transfer slot
         self.zero_test = None
+        self.zero_of = None
         self.path = None
         self.other = []
 
@@ -46,23 +47,28 @@ class Row:
 
 
 def table(repo, canon, callee, call, caller_frame, residual_param='residual_data'):
-    """decision table of one tier method for one call site"""
+    """decision table of one tier method for one call site.  Locals are evaluated along each
+    path as affine forms, so temporaries (`moved = ...; cap += moved`) and `a = a - b` spellings
+    give the same rows as the direct form."""
+    from ..norm import TERM_INFO
     sub = Frame(callee, caller_frame, bind_args(callee, call, caller_frame), call)
     tier = canon.class_name(callee.cls.name)
     cap = '%s.current_capacity' % tier
     stored = "%s.observations['stored']" % tier
     slot = "%s.observations['transfer']" % tier
     rows = []
+    D0 = None
+    if residual_param in callee.params:
+        ex, fr0 = sub.binding[residual_param]
+        D0 = affine(canon, ex, fr0)
     for p in function_paths(callee, sub):
         if p.exit == 'raise':
             continue
         r = Row()
         r.path = p
         env = {}
-        if residual_param in callee.params:
-            ex, fr = sub.binding[residual_param]
-            env[residual_param] = affine(canon, ex, fr)
-        D0 = env.get(residual_param)
+        if D0 is not None:
+            env[residual_param] = D0
         feasible = True
         for e in p.events:
             if e.kind == 'test':
@@ -74,34 +80,39 @@ def table(repo, canon, callee, call, caller_frame, residual_param='residual_data
                     rr = affine(canon, t.comparators[0], sub, env)
                     op = type(t.ops[0])
                     d = l - rr
-                    # classify
-                    if D0 is not None and d.is_const() and op in (ast.Eq, ast.NotEq):
+                    if isinstance(t.ops[0], (ast.Is, ast.IsNot)):
+                        continue
+                    if d.is_const() and op in (ast.Eq, ast.NotEq):
                         val = (d.const == 0) == (op is ast.Eq)
                         if val != pol:
                             feasible = False
                             break
                         continue
-                    if op in (ast.Eq, ast.NotEq) and D0 is not None and l == env.get(residual_param) and rr.is_const() and rr.const == 0:
+                    if op in (ast.Eq, ast.NotEq) and rr.is_const() and rr.const == 0:
+                        # `<residual after this step> == 0`
                         r.zero_test = (op is ast.Eq) == pol
+                        r.zero_of = l
                         continue
-                    if rr.is_const() and rr.const == 0 and op in (ast.Lt, ast.Gt, ast.LtE, ast.GtE) and \
-                            D0 is not None and l != env.get(residual_param):
-                        # sign test of the rate
+                    if rr.is_const() and rr.const == 0 and op in (ast.Lt, ast.Gt, ast.LtE, ast.GtE) and l != D0:
                         pos = {ast.Gt: True, ast.GtE: True, ast.Lt: False, ast.LtE: False}[op]
                         r.sign = '+' if pos == pol else '-'
                         r.rate = l
                         continue
-                    if D0 is not None and l == env.get(residual_param) and op in (ast.Lt, ast.GtE, ast.LtE, ast.Gt):
-                        lt = {ast.Lt: True, ast.GtE: False}.get(op)
+                    if D0 is not None and op in (ast.Lt, ast.GtE, ast.LtE, ast.Gt) and (l == D0 or rr == D0):
+                        if l == D0:
+                            lt = {ast.Lt: True, ast.GtE: False}.get(op)
+                            other = rr
+                        else:
+                            lt = {ast.Gt: True, ast.LtE: False}.get(op)
+                            other = l
                         if lt is None:
-                            r.other.append('%s %s' % (ast.unparse(t), pol))
+                            r.other.append('%s is %s' % (ast.unparse(t), pol))
                             continue
                         r.small = lt == pol
-                        r.rate = rr if r.rate is None else r.rate
-                        if r.rate != rr:
-                            r.other.append('compares with %r' % rr)
-                        continue
-                    if isinstance(t.ops[0], (ast.Is, ast.IsNot)):
+                        if r.rate is None:
+                            r.rate = other
+                        elif r.rate != other:
+                            r.other.append('compares the residual with %r' % other)
                         continue
                     r.other.append('%s is %s' % (ast.unparse(t), pol))
                 else:
@@ -112,23 +123,27 @@ def table(repo, canon, callee, call, caller_frame, residual_param='residual_data
             elif e.kind == 'stmt':
                 n = e.node
                 if isinstance(n, ast.AugAssign):
-                    tgt = canon.c(n.target, sub)
                     v = affine(canon, n.value, sub, env)
                     sgn = 1 if isinstance(n.op, ast.Add) else -1 if isinstance(n.op, ast.Sub) else None
-                    if tgt == cap and sgn:
+                    if isinstance(n.target, ast.Name) and sgn:
+                        cur = env.get(n.target.id, Affine({n.target.id: 1}))
+                        env[n.target.id] = cur + v.scale(sgn)
+                    elif canon.c(n.target, sub) == cap and sgn:
                         r.dcap = r.dcap + v.scale(sgn)
-                    elif isinstance(n.target, ast.Name) and n.target.id == residual_param and sgn:
-                        env[residual_param] = env[residual_param] + v.scale(sgn)
-                    elif tgt == cap:
+                    elif canon.c(n.target, sub) == cap:
                         r.other.append('capacity %s' % ast.unparse(n))
                 elif isinstance(n, ast.Assign) and len(n.targets) == 1:
                     t0 = n.targets[0]
-                    if isinstance(t0, ast.Name) and t0.id == residual_param:
-                        env[residual_param] = affine(canon, n.value, sub, env)
+                    if isinstance(t0, ast.Name):
+                        env[t0.id] = affine(canon, n.value, sub, env)
                     else:
                         tc = canon.c(t0, sub)
                         if tc == cap:
-                            r.other.append('capacity overwritten: %s' % ast.unparse(n))
+                            newv = affine(canon, n.value, sub, env)
+                            if newv.terms.get(cap) == 1:
+                                r.dcap = r.dcap + (newv - Affine({cap: 1}))
+                            else:
+                                r.other.append('capacity overwritten: %s' % ast.unparse(n))
                         elif tc == slot:
                             r.slot.append(canon.c(n.value, sub))
                 for ef in effects_of_event(canon, e):
@@ -138,9 +153,57 @@ def table(repo, canon, callee, call, caller_frame, residual_param='residual_data
                         r.other.append('%s on stored' % ef.kind)
                 if isinstance(n, ast.Return) and n.value is not None:
                     r.res = affine(canon, n.value, sub, env)
-        if feasible:
+        if not feasible:
+            continue
+        # the zero test is about the value that is returned; if it is constant, decide it
+        if r.zero_test is not None and r.res is not None and getattr(r, 'zero_of', None) == r.res and r.res.is_const():
+            if (r.res.const == 0) != r.zero_test:
+                continue
+        # min(rate, residual) without a branch: split into the two cases it stands for
+        split = None
+        if r.small is None and r.sign != '-' and D0 is not None:
+            for a in (r.dcap, r.res):
+                if a is None:
+                    continue
+                for k in a.terms:
+                    if k in TERM_INFO and TERM_INFO[k][0] == 'min' and len(TERM_INFO[k][1]) == 2 and \
+                            D0 in TERM_INFO[k][1]:
+                        split = (k, [x for x in TERM_INFO[k][1] if x != D0][0])
+        if split is not None:
+            k, rate = split
+            for small in (True, False):
+                r2 = Row()
+                r2.__dict__.update({kk: vv for kk, vv in r.__dict__.items()}) if hasattr(r, '__dict__') else None
+                r2 = _copy_row(r)
+                val = D0 if small else rate
+                r2.small = small
+                r2.rate = rate if r.rate is None else r.rate
+                r2.dcap = _subst_term(r.dcap, k, val)
+                r2.res = _subst_term(r.res, k, val) if r.res is not None else None
+                if r2.zero_test is not None and r2.res is not None and r2.res.is_const():
+                    if (r2.res.const == 0) != r2.zero_test:
+                        continue
+                rows.append(r2)
+        else:
             rows.append(r)
     return rows, sub
+
+
+def _copy_row(r):
+    r2 = Row()
+    for k in ('sign', 'small', 'dcap', 'res', 'rate', 'stored', 'zero_test', 'path'):
+        setattr(r2, k, getattr(r, k))
+    r2.slot = list(r.slot)
+    r2.other = list(r.other)
+    return r2
+
+
+def _subst_term(a, key, val):
+    if a is None or key not in a.terms:
+        return a
+    coeff = a.terms[key]
+    rest = Affine({k: v for k, v in a.terms.items() if k != key}, a.const)
+    return rest + val.scale(coeff)
 
 
 def check(repo, res, tier):
